@@ -146,6 +146,19 @@ pub fn main_rdfc(deep: bool) {
             n += check(&mixed, &format!("{}{} with one distinguished edge", name, k));
         }
     }
+    // several groups of blank nodes with equal first-degree hashes, linked across groups (k pairs a_i -> b_i, also
+    // with a third layer, a second predicate, and edges back): step 5.3 must issue identifiers for every node the
+    // recursion reached, whatever its group
+    for k in 2..=4usize {
+        let pairs: Vec<OQuad> = (0..k).map(|i| edge(10 + i, 20 + i, None)).collect();
+        n += check(&pairs, &format!("{} disjoint pairs", k));
+        let three: Vec<OQuad> = (0..k).flat_map(|i| [edge(10 + i, 20 + i, None), OQuad { s: b(20 + i), p: iri("x:q"), o: b(30 + i), g: None }]).collect();
+        n += check(&three, &format!("{} disjoint paths of three", k));
+        let back: Vec<OQuad> = (0..k).flat_map(|i| [edge(10 + i, 20 + i, None), OQuad { s: b(20 + i), p: iri("x:q"), o: b(10 + (i + 1) % k), g: None }]).collect();
+        n += check(&back, &format!("{} pairs chained into a ring by a second predicate", k));
+        let named: Vec<OQuad> = (0..k).map(|i| edge(10 + i, 20 + i, Some(b(30 + i)))).collect();
+        n += check(&named, &format!("{} disjoint pairs, each in its own blank graph", k));
+    }
     // the shape of duplicated links over graphs with partially shared targets
     let d = vec![edge(1, 11, Some(iri("x:g1"))), edge(1, 11, Some(iri("x:g2"))), edge(2, 12, Some(iri("x:g1"))), edge(2, 13, Some(iri("x:g2")))];
     n += check(&d, "duplicated links over two graphs");
